@@ -1,4 +1,5 @@
 import ast
+import textwrap
 import inspect
 import logging
 from collections import OrderedDict
@@ -91,7 +92,8 @@ def _introspect_class(
         return fiis_
     src = getsource_class(c)
     # _logger.debug(f"Starting _introspect_class: {c}: src={src}")
-    ast_src = ast.parse(src)
+    # (the definition may be indented: a function defined under an `if` or a `try`, a nested class)
+    ast_src = ast.parse(textwrap.dedent(src))
     ast_f: ast.ClassDef = ast_src.body[0]  # type: ignore
     assert isinstance(ast_f, ast.ClassDef), type(ast_f)
     if debug:
@@ -147,7 +149,8 @@ def _introspect_fun(
             return fiis_
         src = inspect.getsource(f)
         # _logger.debug(f"Starting _introspect: {f}: src={src}")
-        ast_src = ast.parse(src)
+        # (the definition may be indented: a function defined under an `if` or a `try`, a nested class)
+        ast_src = ast.parse(textwrap.dedent(src))
         ast_f = ast_src.body[0]  # type: ignore
         assert isinstance(ast_f, ast.FunctionDef), type(ast_f)
         # _logger.debug(f"_introspect ast_src:\n {pformat(ast_f)}")
